@@ -269,10 +269,11 @@ class Generator(object):
         if is_user_type(type_):
             return '{}_{}_e'.format(self.get_user_type_prefix(type_.type_name,
                                                               type_.module_name),
-                                    type_.default)
+                                    canonical(type_.default))
         else:
-            with self.members_backtrace_push(type_.name):
-                return '{}_{}_e'.format(self.location, type_.default)
+            with self.members_backtrace_push(canonical(type_.name)):
+                return '{}_{}_e'.format(self.location,
+                                        canonical(type_.default))
 
     def get_addition_present_condition(self, type_):
         return ' || '.join(['src_p->{}is_{}_addition_present'.
